@@ -8,6 +8,22 @@ from . import shared, field, conv2, norm, ladder, mono
 LADDERS = [("crate::fields::FieldElement::pow", "one", "squared", "mul_assign")]
 
 
+def ladders(repo):
+    """the generic exponentiation, wherever the maintainer keeps it: by default the provided method of the field trait; if that is
+    gone, the `pow` that the public `Gt::pow` forwards to (an extension trait with a blanket impl, a free function, …)"""
+    F = repo.F
+    if LADDERS[0][0] in F.bodies:
+        return LADDERS
+    w = F.bodies.get("crate::Gt::pow")
+    cands = []
+    for _, t in (w.calls() if w is not None else []):
+        fn = t.get("fn") or {}
+        for d in (fn.get("res_def"), fn.get("def")):
+            if d in F.bodies and fn.get("name") == "pow" and d not in cands:
+                cands.append(d)
+    return [(cands[0],) + LADDERS[0][1:]] if len(cands) == 1 else LADDERS
+
+
 def machine_forward(repo, b, op):
     """The wrapper's outcomes, read off the byte-provenance machine: Gt(inner_op(self.0, other.0)) / Option mapped back."""
     from core.bytex import Machine, T, Adt as BAdt, Ref as BRef
@@ -79,7 +95,7 @@ def run(ctx):
     r_lay, _ = conv2.rule_layout("C11", repo, conv2.make_conv(repo), ["crate::fields::fq2::Fq2::to_slice", "crate::fields::fq4::Fq4::to_slice", "crate::fields::fq12::Fq12::to_slice", "crate::Gt::to_slice"])
     N = norm.Norm(repo)
     rules = [shared.rule_eq_derived(repo, ["crate::Gt", "crate::fields::fq12::Fq12", "crate::fields::fq4::Fq4", "crate::fields::fq2::Fq2", "crate::fields::fp::Fq", "crate::u256::U256"]),
-             r_lay, shared.rule_red(repo), rule_gt_forward(repo), field.rule_tower_consts("C11", repo), field.rule_zero_cover("C11", repo), field.rule_tower_shapes("C11", repo), ladder.rule_ladder("C11", repo, LADDERS), field.rule_bits("C11", repo),
+             r_lay, shared.rule_red(repo), rule_gt_forward(repo), field.rule_tower_consts("C11", repo), field.rule_zero_cover("C11", repo), field.rule_tower_shapes("C11", repo), ladder.rule_ladder("C11", repo, ladders(repo)), field.rule_bits("C11", repo),
              field.rule_ops_forward("C11", repo, ["crate::fields::fq12::Fq12", "crate::fields::fq4::Fq4"]),
              field.rule_shortcuts("C11", repo, ["crate::fields::fq12::Fq12", "crate::fields::fq4::Fq4", "crate::fields::fq2::Fq2"]), mono.rule_shortcut_formulas("C11", repo, ["crate::fields::fq12::Fq12", "crate::fields::fq4::Fq4", "crate::fields::fq2::Fq2"])]
     return report.emit(
